@@ -226,7 +226,8 @@ def resolve_entity(entity):
 
 
 def replace_html_entities(txt):
-    return re.sub(r"&[^;]*;", lambda mo: resolve_entity(mo.group(0)), txt)
+    # a reference has no "&" or blank inside: a bare "&" earlier in the text must not swallow it
+    return re.sub(r"&[^;&\s]*;", lambda mo: resolve_entity(mo.group(0)), txt)
 
 
 def remove_nowiki_tags(
